@@ -1,12 +1,22 @@
 """C18 — a failed storage operation can be retried and leaves no trace.
-proof (coq/Properties/C18.v over coq/Ledger/Fault.v) + storage-fault enumeration on the real
-wallet: harness/cmd/c18 replays generated histories once undisturbed (counting the numbered
-database calls of every operation) and then with the database wrapper (harness/internal/dbwrap)
-failing one chosen call (begin, get, put, delete, commit, ...) of every operation, once or
-repeatedly; the operation must report the failure or recover, nothing observable may change,
-the repeated operation must return what the fault-free twin returned (same address, same
-wallet) and the state must equal the twin's after every operation and at the end. Every run is
-also replayed on the extracted Ledger model (ocaml/C01 driver) and checked against the chain."""
+proof (coq/Properties/C18.v over coq/Ledger/Fault*.v) + storage-fault enumeration on the real
+wallet: harness/cmd/c18 replays generated histories once undisturbed (recording every numbered
+database call of every operation: kind, calling wallet functions, key) and then with the
+database wrapper (harness/internal/dbwrap) failing chosen calls (begin, get, put, delete,
+commit, ...): one call of every operation, once or repeatedly (index-rule plans), and —
+coverage-guided, quick tier — every distinct fault TARGET (operation kind, calling functions,
+call kind, key, ordinal) seen in any twin as a single fault, and every distinct target of a
+repair / reload / retry path (the calls an operation makes after a first fault) as the SECOND of
+two non-adjacent faults inside one operation.  The operation must report the failure or recover,
+nothing observable may change, the repeated operation must return what the fault-free twin
+returned (same address, same wallet), operations that run undisturbed after faulted ones must
+return the twin's results too (a later NewAddress shows a stale in-memory key counter), and the
+state must equal the twin's after every operation and at the end; at the end the WHOLE wallet
+database (every bucket, every key, read through the wallet's own database interface) must equal
+the twin's, except what differs between two fault-free replays (random salts, wall-clock
+fields).  A divergence noticed late is attributed by re-running the plan reduced to one faulted
+operation with the state compared after every operation.  Runs are also replayed on the
+extracted Ledger model (ocaml/C01 driver) and checked against the chain."""
 import json
 import os
 import re
@@ -18,6 +28,10 @@ TRUSTED = [
     "axioms: none expected (see print_assumptions in this file)",
     "extraction: ExtrOcamlBasic only; ocaml/common/conv.ml + ocaml/C01/driver.ml (replays the histories this check emits)",
     "Go harness: harness/internal/dbwrap (database wrapper: numbers every call that has an error or iterator result, makes call k return an injected error without touching the real database; documented nearest-faithful behaviour for Commit / BeginTx / NewIterator), harness/internal/cfsim (script recorder/replayer, fault procedure, snapshots), harness/internal/sim + harness/internal/hist, harness/cmd/c18",
+    "dbwrap fault sets (call k and call k+d of one operation, numbered in the faulted run), call descriptions (kind, two innermost wallet functions, short key) = the fault targets of the coverage-guided plans (harness/cmd/c18/guided.go: persistent worker processes, plans are a function of VERIF_SEED and the twins)",
+    "background work is made replayable: the worker goroutine is held (at its next database call) while the API call that queued its task runs, and the harness' own polling reads are not numbered (cfsim.HoldBackground)",
+    "whole-database comparison at the end of a guided run (cfsim/store.go): keys / buckets whose content differs between two fault-free replays of the same script are not compared",
+    "a FATAL log of the wallet (logrus exit) during a fault run is turned into 'the process stops here' (cfsim/fatal.go) and reported as a divergence",
     "not injected (documented in dbwrap): TopLevelBucket / FetchBucket / Bucket (answer nil for absent and error alike; callers dereference: C19), Rollback (result ignored by every caller), iterator stepping",
     "deterministic entropy: crypto/rand.Reader is replaced during CreateWallet so that a repeated CreateWallet creates the twin's wallet",
     "environment, not verified: mass-core, goleveldb",
@@ -42,8 +56,20 @@ def main(tier, replay=None):
 
         n *= 3
     out = os.path.join(c.workdir, "impl.txt")
-    args = [outs[0], "-n", str(n), "-out", out, "-j", str(V.NCPU)]
-    args += ["-quota", "5"] if tier == "quick" else ["-all"]
+    jobs = int(os.environ.get("VERIF_JOBS", V.NCPU))
+    args = [outs[0], "-n", str(n), "-out", out, "-j", str(jobs)]
+    # quick: coverage-guided plans (cmd/c18/guided.go) within a budget of runs per history; a modelled Go
+    # function whose source changed since the pin (c.drift) raises the budget and the multiplicity.
+    # thorough: every call index of every operation + the uniform pairs (k <= 3, 2 <= d <= 6), then the
+    # guided plans with multiplicity 4 on 64 further histories
+    quota, mult = (20, 2) if not c.escalated else (36, 3)
+    if tier == "quick":
+        passes = [args + ["-guided", "-quota", str(quota), "-mult", str(mult)]]
+    else:
+        quota, mult = 44, 4
+        out2 = os.path.join(c.workdir, "impl2.txt")
+        passes = [args + ["-all", "-pairs", "3"],
+                  [outs[0], "-n", "64", "-first", "1000", "-out", out2, "-j", str(jobs), "-guided", "-quota", str(quota), "-mult", str(mult)]]
     if replay:
         rp = json.load(open(replay))
         os.environ["VERIF_SEED"] = str(rp.get("seed", c.seed))
@@ -60,14 +86,23 @@ def main(tier, replay=None):
         open(out, "w").write("".join(chunks))
         stats = "replay"
     else:
-        rc, o, e = V.sh(args, timeout=3300)
-        stats = e.strip().splitlines()[-1] if e.strip() else ""
-        if rc != 0:
-            return c.finish(TRUSTED, no_input_break="harness cmd/c18 failed to run: " + (o + e)[-1500:])
+        stats = ""
+        for a in passes:
+            rc, o, e = V.sh(a, timeout=3300)
+            sl = [l for l in e.strip().splitlines() if l.startswith("STATS ")]
+            stats += (" | " if stats else "") + (sl[-1] if sl else "")
+            if rc != 0:
+                return c.finish(TRUSTED, no_input_break="harness cmd/c18 failed to run: " + (o + e)[-1500:])
+        if len(passes) > 1:
+            with open(out, "a") as fo:
+                fo.write(open(out2).read())
 
+    c.log("harness:", stats[:160])
     model_in = os.path.join(c.workdir, "model.txt")
     runs, traces, harness_err = [], [], []
     foreign, scripts, calls = {}, {}, {}
+    targets = {1: {}, 2: {}}     # phase -> target -> (histories that have it, histories it was faulted in)
+    observers = [0, 0, 0]        # histories, with a NewAddress of the restored wallet after its import, NewAddress calls that follow an operation on their wallet
     with open(model_in, "w") as mf:
         for l in V.read_lines(out):
             if l.startswith("M "):
@@ -84,11 +119,20 @@ def main(tier, replay=None):
                 scripts[int(f[1])] = l
                 m = re.search(r"foreign=(\d+)", l)
                 foreign[f[1]] = m.group(1) if m else "0"
+                m = re.search(r"newaddr_after_import=(\d+) newaddr_after_op_on_wallet=(\d+)", l)
+                if m:
+                    observers[0] += 1
+                    observers[1] += 1 if int(m.group(1)) > 0 else 0
+                    observers[2] += int(m.group(2))
+            elif l.startswith("G "):
+                f = l.split(" ")
+                targets[int(f[1])][f[2]] = (int(f[3].split("=")[1]), int(f[4].split("=")[1]))
             elif l.startswith("X "):
                 harness_err.append(l)
     rc, mo, me = V.sh("%s < %s" % (exe, model_in), timeout=3000)
     if rc != 0:
         return c.finish(TRUSTED, no_input_break="model driver failed: " + me[-1500:])
+    c.log("model: %d lines of output" % len(mo.splitlines()))
 
     def rerun(h, rid):
         only = rid.split(":", 1)[1] if ":" in rid and not rid.endswith(":twin") else ""
@@ -98,6 +142,16 @@ def main(tier, replay=None):
     nev = nfail = nrec = nbg = 0
     kinds = {}
     distinct = set()
+    per_key = {}
+
+    def violation(key, what, rr):
+        # (the replay file keeps 50 entries: at most 4 per key — the attributed single-operation plans first —
+        #  so that every distinct finding of a run is in it)
+        per_key[key] = per_key.get(key, 0) + 1
+        if per_key[key] <= 4:
+            c.violation(key, what, rr)
+
+    found = []
     for l in runs:
         f = l.split(" ")
         h, rid = f[1], f[2]
@@ -111,13 +165,15 @@ def main(tier, replay=None):
             if ":" in x:
                 k, v = x.split(":")
                 kinds[k] = kinds.get(k, 0) + int(v)
-                distinct.add(h + "|" + kv.get("plan", "") + "|" + k)
+                distinct.add(rid + "|" + k)
         if " VIOL " in l:
             key, what = l.split(" VIOL ", 1)[1].split(" ", 1)
-            c.violation(key, "history %s run %s: %s" % (h, rid, what[:1500]), rerun(h, rid))
+            found.append((0 if kv.get("plan") == "attributed" else 1, key, "history %s run %s: %s" % (h, rid, what[:1500]), rerun(h, rid)))
     for l in traces:
         _, h, rid, key, what = l.split(" ", 4)
-        c.violation(key, "history %s run %s: %s" % (h, rid, what[:1500]), rerun(h, rid))
+        found.append((1, key, "history %s run %s: %s" % (h, rid, what[:1500]), rerun(h, rid)))
+    for _, key, what, rr in sorted(found, key=lambda x: x[0]):
+        violation(key, what, rr)
 
     nq = nquiet = nproc = 0
     bad = {}
@@ -147,17 +203,42 @@ def main(tier, replay=None):
         else:
             c.violation("faulted-run-vs-model:%s" % kind, "history %s run %s (agrees with its twin): %s" % (h, rid, what), rerun(h, rid))
 
+    tcov = {}
+    for ph, name in ((1, "single_fault_targets"), (2, "second_fault_targets_in_repair_paths")):
+        per, missed = {}, []
+        for t, (seen, hit) in sorted(targets[ph].items()):
+            lab = t[2:].split("|")[0] if t.startswith("2|") else t.split("|")[0]
+            a = per.setdefault(lab, [0, 0])
+            a[0] += 1
+            a[1] += 1 if hit else 0
+            if not hit:
+                missed.append(t)
+        tcov[name] = {"seen": len(targets[ph]), "faulted": sum(v[1] for v in per.values()),
+                      "by_operation_kind_seen_faulted": per, "not_faulted": missed[:60]}
+    c.log("fault targets: single %d/%d, second-in-repair-path %d/%d" % (
+        tcov["single_fault_targets"]["faulted"], tcov["single_fault_targets"]["seen"],
+        tcov["second_fault_targets_in_repair_paths"]["faulted"], tcov["second_fault_targets_in_repair_paths"]["seen"]))
+
     brk = None
     if harness_err and not c.violations:
         brk = "the harness could not run %d histories/runs: %s" % (len(harness_err), harness_err[0][:600])
     c.coverage.update({
+        "divergences_by_key": per_key,
         "evaluations": nev,
         "distinct_nontrivial": len(distinct),
         "rule": "one evaluation = one operation of a replayed history executed with an injected storage fault (create, new address, restore from mnemonic, "
                 "remove, block / reorg announcement, background import or removal work): database call number j of the operation fails (plans: fixed j, "
                 "j counted from the operation's last call = the commit and the puts before it, j at a fraction of the operation's calls; quick tier samples "
                 "plans, thorough tier takes every j), once or repeatedly (the first retry fails at the same call again; two consecutive calls for background "
-                "work and announcements). distinct_nontrivial = distinct (history, plan, kind of failing call). " + stats,
+                "work and announcements); quick tier in addition coverage-guided explicit plans (cmd/c18/guided.go): every distinct fault target of any twin "
+                "as a single fault, every distinct target of a repair / reload / retry path as the second of two non-adjacent faults of one operation "
+                "(call k and the d-th call after it, numbered in the faulted run; thorough tier: in addition every pair k <= 3, 2 <= d <= 6 as uniform plans "
+                "and the guided plans on 64 further histories), each target in up to `mult` histories (again, in a plan of its own, when a plan aimed at it and missed); the NewAddress that follows a faulted operation on the same wallet runs undisturbed and is compared with the twin's. "
+                "distinct_nontrivial = distinct (history, plan, kinds of the failing calls). " + stats,
+        "fault_target_coverage": tcov,
+        "budget": {"guided_runs_per_history_at_most": quota, "multiplicity": mult, "escalated_by_model_source_drift": bool(c.escalated)},
+        "observer_newaddress": {"histories": observers[0], "histories_with_newaddress_of_restored_wallet_after_import": observers[1],
+                                "newaddress_calls_following_an_operation_on_their_wallet": observers[2]},
         "histories": len(scripts),
         "faulted_runs": len(runs),
         "operation_reported_failure": nfail, "operation_recovered": nrec, "retried_in_background": nbg,
